@@ -192,6 +192,9 @@ func c19Run(c *vk.Ctx) {
 	if !c12Forced(c) {
 		return
 	}
+	if !c12PacketBurst(c) {
+		return
+	}
 	c.Eval("rig|shared-listeners|acquire-close-accept-read")
 	// 5. association table: many clients, expiry against lookups (and TCP traffic alongside)
 	catcher := &panicCatcher{}
@@ -214,7 +217,7 @@ func init() {
 	vk.Register(&vk.Spec{
 		ID:                 "C19",
 		Level:              "exploration",
-		Rule:               "the concurrent rigs of every shared component run under the Go race detector at GOMAXPROCS 2/4/16 (by batch): key list (lookups vs list replacement vs usage marking, forced straddles), replay cache (porcupine histories, adds vs Resize incl. 0), Prometheus collectors (ticking clock; traffic vs Gather; lost-update audit), shared listeners (acquire/close/accept/read histories, forced H3 schedules), association table (churn vs lookups, expiry with slow reaper), and the real binary (-race) under client traffic with a reload storm; every distinct race report (de-duplicated by the pair of top in-repo frames) is a violation; sequential-result oracles of the reused rigs ride along",
+		Rule:               "the concurrent rigs of every shared component run under the Go race detector at GOMAXPROCS 2/4/16 (by batch): key list (lookups vs list replacement vs usage marking, forced straddles), replay cache (porcupine histories, adds vs Resize incl. 0), Prometheus collectors (ticking clock; traffic vs Gather; lost-update audit), shared listeners (acquire/close/accept/read histories, forced H3 schedules, several concurrent readers per packet handle), association table (churn vs lookups, expiry with slow reaper), and the real binary (-race) under client traffic with a reload storm; every distinct race report (de-duplicated by the pair of top in-repo frames) is a violation; sequential-result oracles of the reused rigs ride along",
 		Assumptions:        []string{"the race detector only sees accesses that executed; the evidence counts the operations each rig performed", "a race report without any frame of the repository would be a harness defect and is reported as a broken check, not as a violation"},
 		Batches:            func(t string) int { return map[string]int{"quick": 6, "thorough": 30}[t] },
 		Parallel:           func(t string) int { return 3 },
